@@ -1,5 +1,6 @@
 import Driver.Pure
 import Driver.Ctl
+import Driver.ClientMon
 /-
   ftpdriver: one line in, one line out.
 
@@ -17,7 +18,7 @@ def handleLine (line : String) : String :=
   | [lhs, impl] =>
     match lhs.splitOn " " with
     | op :: args =>
-      match (pureOp op args impl <|> ctlOp op args impl) with
+      match (if op = "client" then clientOp args impl else (pureOp op args impl <|> ctlOp op args impl)) with
       | some v =>
         let tags := ",".intercalate v.tags
         match v.viol with
